@@ -27,7 +27,7 @@ CFG = {
             "journal append / raw setter call-site inventory of core/state": "gen (go/ast dump -> Aqv.Gen.StateJournal, theorem journalled_mutators_as_modelled)",
             "state root": "corr, byte-exact: at every IntermediateRoot/Commit/net-effect replay the driver recomputes stateRootSpec (C10 mptRoot + C11 account RLP + Lean Keccak-256) from the model content and compares it with the 32-byte root Go returns; plus content classes (equal content <=> equal root) and a direct Go judgement against a plain trie.Trie"},
     "assumptions": ["account and storage tries are abstracted to total maps in Model.State; the concrete root is stateRootSpec (Model.StateRoot) and root_eq_spec_state composes C09 with C10 root_eq_spec_run for every hash function that is injective on the finitely many secure-trie keys involved (explicit hypothesis KeysOK)",
-                    "code is identified with its Keccak hash (collision freedom on the codes involved); read caches (stateObjects fill on read, cachedStorage, lazily loaded code) are not modelled and are unobservable through the getters",
+                    "code is identified with its Keccak hash (collision freedom on the codes involved); the read caches (stateObjects fill on read; with it code and storage content) are explicit in Model.StateCache: read_cache_transparent proves the fill invisible to getters, Copy and Finalise, and the driver mirrors the harness' reads (presence flag per tracked address compared)",
                     "a StateDB is not used after Commit without Reset/New (every caller in /repo resets; commit_reuse_loses_write_witness shows what happens otherwise)",
                     "independence of a Copy from the original is a statement about aliasing in the Go heap: judged on the real code by the harness (J4), trivial in the value-semantics model",
                     "Go runtime, math/big and the cryptographic primitives are modelled, not verified (DESIGN.md 2.5)"],
@@ -40,7 +40,8 @@ META = {
             "11 journalled mutators; every getter, refund, logs, preimages, journal and revision stack restored) and its reachability version, "
             "journal_complete, finalise_perm_invariant (Go map order), root_content_only / root_history_independent (after IntermediateRoot/Commit "
             "the trie holds exactly the content the getters report), root_eq_spec_state (the real tries hash to the specification's Merkle-Patricia root of the reported content: C10 mptRoot over RLP-encoded "
-            "accounts, any hash function injective on the keys), reopen_reads_back, copy_independent, and the _partial form of "
+            "accounts, any hash function injective on the keys), reopen_reads_back, copy_independent, reopened_instances_independent, read_cache_transparent (reads only fill the object cache; Copy and "
+            "Finalise with either flag cannot see it), and the _partial form of "
             "revert_exact_through_finalise with the excluded set explicit. Four defects of the code as written are proved as concrete witness "
             "theorems (F1 reverted write leaves the account dirty, F2 reverted touch disarms dirty tracking and loses later writes, F3 mixed "
             "delete-empty flags re-insert a deleted account, F4 the deliberate RIPEMD exception) and are re-found on the real code on every run as "
